@@ -15,6 +15,12 @@ func BuildSchemaValidation(schema *openapi3.SchemaRef, validationString string, 
 		return
 	}
 
+	if schema.Ref != "" {
+		// The value behind a reference IS the shared component: OpenAPI 3.0 allows nothing next to $ref,
+		// and annotating the value would rewrite the component for every other user of the type
+		return
+	}
+
 	// Parse and apply validation rules from the Validator field
 	validationRules := strings.Split(validationString, ",")
 	for _, rule := range validationRules {
